@@ -31,6 +31,8 @@ pub enum Plan {
     TraderOp { vi: usize, who: Who, op: TOp, block: Blk },
     /// liquidation of the weakest position on the vAMM
     LiqAny { vi: usize, block: Blk },
+    /// the same, sent by a given account (e.g. one whose own position was just updated in this block)
+    LiqBy { vi: usize, by: u64, block: Blk },
     PayFunding { vi: usize, by: u64, block: Blk },
     IfRm { vi: usize },
     IfAdd { vi: usize },
@@ -208,6 +210,10 @@ impl GenCtx {
                     script.push(Plan::PayFunding { vi, by: STRANGER, block: first });
                     for who in [Who::Id(liq), Who::Holder(victim), Who::Bystander(liq, victim)] {
                         script.push(Plan::TraderOp { vi, who, op: TOp::OpenSame, block: Blk::Same });
+                        if round == 0 && who == Who::Id(liq) {
+                            // the liquidator, whose own position was just updated in this block, liquidates again
+                            script.push(Plan::LiqBy { vi, by: liq, block: Blk::Same });
+                        }
                         script.push(Plan::TraderOp { vi, who, op: TOp::Close, block: Blk::Same });
                     }
                 }
@@ -937,6 +943,15 @@ fn realize(w: &World, r: &mut Rng, g: &mut GenCtx, plan: &Plan, vis: &[VInfo], p
             let rs = ratios(w, &on_v);
             let target = rs.first().map(|x| x.0.t).or_else(|| on_v.first().map(|p| p.t))?;
             let mut dr = draft(LIQUIDATOR, Msg::Liq { v: v.id, trader: target, lim: 0 });
+            dr.block = *block;
+            Some(dr)
+        }
+        Plan::LiqBy { vi, by, block } => {
+            let v = vis.iter().find(|x| x.idx == *vi)?;
+            let on_v: Vec<PosInfo> = ps.iter().filter(|p| p.v == v.id && p.t != *by).cloned().collect();
+            let rs = ratios(w, &on_v);
+            let target = rs.first().map(|x| x.0.t).or_else(|| on_v.first().map(|p| p.t))?;
+            let mut dr = draft(*by, Msg::Liq { v: v.id, trader: target, lim: 0 });
             dr.block = *block;
             Some(dr)
         }
@@ -1854,6 +1869,7 @@ pub fn gen_step(w: &World, r: &mut Rng, g: &mut GenCtx, k: u64, stats: &mut Stat
                 Plan::Shutdown => "shutdown",
                 Plan::TraderOp { .. } => "trader_op",
                 Plan::LiqAny { .. } => "liq_any",
+                Plan::LiqBy { .. } => "liq_by",
                 Plan::PayFunding { .. } => "payfunding",
                 Plan::IfRm { .. } => "ifrm",
                 Plan::IfAdd { .. } => "ifadd",
@@ -1973,7 +1989,13 @@ pub fn gen_step(w: &World, r: &mut Rng, g: &mut GenCtx, k: u64, stats: &mut Stat
         Msg::Oracle { price, ts } if ts == now + dt || ts == now => Msg::Oracle { price, ts: time },
         m => m,
     };
-    let funds = if w.cfg.native { dr.funds } else { 0 };
+    // coins nobody asked for: a small share of the calls that need none carries some (native collateral)
+    let stray = w.cfg.native
+        && dr.funds == 0
+        && matches!(msg, Msg::PayFunding { .. } | Msg::Liq { .. } | Msg::Withdraw { .. } | Msg::Close { .. })
+        && r.chance(4, 100)
+        && w.balance_id(dr.snd) > 3 * w.cfg.d;
+    let funds = if stray { r.range(1, 3) as u128 * w.cfg.d } else if w.cfg.native { dr.funds } else { 0 };
     // the second denom can only be attached by an account that was funded with it
     let snd = dr.snd;
     let extra = w.cfg.native && dr.extra && w.cfg.funds.iter().any(|(id, _)| *id == snd);
